@@ -142,7 +142,12 @@ def ensure_harness(variant, name, sources, extra_cflags=(), extra_ldflags=(),
         old = open(stamp).read() if os.path.exists(stamp) else ""
         if (not os.path.exists(exe) or old != cmdtxt
                 or os.path.getmtime(exe) < _newest(deps)):
-            _run(cmd, what="harness build %s/%s" % (variant, name))
+            # link to a temporary name and rename: a check still running the old
+            # executable keeps its inode
+            tmp = "%s.tmp%d" % (exe, os.getpid())
+            _run([tmp if x == exe else x for x in cmd],
+                 what="harness build %s/%s" % (variant, name))
+            os.replace(tmp, exe)
             with open(stamp, "w") as f:
                 f.write(cmdtxt)
     return exe
